@@ -550,6 +550,11 @@ def gen_shape(rng, cx=False):
         yield case("pad", [R(r), 1], tags=["default_mode"])
         yield case("pad", [R(r), 1, "constant"], {"constant_values": 0.0})
         yield case("pad", [R(r), 1, "constant"], {"constant_values": 2.0}, tags=["option"])
+        yield case("pad", [R(r, lo=4, hi=4), 2, "mean"], {"stat_length": 2}, tags=["unsupported_mode", "option"])
+        yield case("pad", [R(r, lo=4, hi=4), 2, "reflect"], {"reflect_type": "odd"}, tags=["unsupported_mode", "option"])
+        yield case("pad", [R(r, lo=4, hi=4), 2, "symmetric"], {"reflect_type": "odd"}, tags=["unsupported_mode", "option"])
+        yield case("pad", [R(r, lo=4, hi=4), 2, "linear_ramp"], {"end_values": 3.0}, tags=["unsupported_mode", "option"])
+        yield case("pad", [R(r, lo=4, hi=4), (1, 2), "edge"], tags=["unsupported_mode"])
         for mode in ("edge", "reflect", "wrap", "symmetric", "linear_ramp", "mean", "maximum", "minimum", "median"):
             yield case("pad", [R(r, lo=3, hi=3), 1, mode], tags=["unsupported_mode"])
             yield case("pad", [R(r, lo=3, hi=3), 1], {"mode": mode}, tags=["unsupported_mode"])
